@@ -84,10 +84,10 @@ def main() -> int:
     replay = sys.argv[sys.argv.index("--replay") + 1] if "--replay" in sys.argv else None
     if thorough:
         cfgs = [("s44", dict(maxr=4, maxc=4, depth=2, pats="1,2"), None, True),
-                ("s33", dict(maxr=3, maxc=3, depth=2, pats="3,4", size="TRUE"), None, True),
+                ("s33", dict(maxr=3, maxc=3, depth=2, pats="3,4,5", size="TRUE"), None, True),
                 ("sim", dict(maxr=12, maxc=12, depth=10, pats="1,2,4", size="TRUE", w=9144000, h=6858001), "num=400", False)]
     else:
-        cfgs = [("s33", dict(maxr=3, maxc=3, depth=2, pats="1,4"), None, True),
+        cfgs = [("s33", dict(maxr=3, maxc=3, depth=2, pats="1,4,5"), None, True),
                 ("s44", dict(maxr=4, maxc=4, depth=1, pats="2", size="TRUE"), None, True),
                 ("sim", dict(maxr=12, maxc=12, depth=10, pats="1,4", size="TRUE", w=9144000, h=6858001), "num=40", False)]
     states = transitions = 0
